@@ -57,7 +57,7 @@ package block
 //@   param marshalFn(item) (bz, e) ensures [marshal] e == nil ==> val(bz) == coreda_Marshal(item)
 //@   param postSubmit(sub, res, gp) requires [success-only] res.Code == coreda.StatusSuccess
 //@   param postSubmit requires [prefix-only] sub == remaining[:res.SubmittedCount] && res.SubmittedCount <= len(remaining)
-//@   param postSubmit requires [blob-is-item] forall j :: 0 <= j && j < len(sub) ==> val(currMarshaled[j]) == coreda_Marshal(sub[j])
+//@   param postSubmit requires [blob-is-item] swh && forall j :: 0 <= j && j < len(sub) ==> val(swh.arg3[j]) == coreda_Marshal(sub[j])
 //@   observe swh := call SubmitWithHelpers
 //@   loop 1 invariant [marshal] forall k :: 0 <= k && k <= rangeindex && k < len(items) ==> val(marshaled[k]) == coreda_Marshal(items[k])
 //@   loop 1 invariant [len] len(marshaled) == len(items) && rangeindex >= -1 && marshaled.arr != items.arr
@@ -309,7 +309,7 @@ package block
 //@ func (m *Manager) publishBlockInternal(ctx) (err)
 //@   property C01:-taken-batch-kept
 //@   property C11:taken-batch-kept
-//@   property C04:kind:crash,kind:frame,height,state,inv-state,inv-tip,inv-genesis,inv-no-future,-taken-batch-kept
+//@   property C04:kind:crash,kind:frame,height,state,inv-state,inv-tip,inv-genesis,inv-no-future,signs-own-block,signed,link,committed-valid,-taken-batch-kept
 //@   property C08:refuse,no-refuse
 //@   requires [wiring] m.metrics != nil && m.headerCache != nil && m.pendingHeaders != nil && m.pendingHeaders.base != nil && m.pendingData != nil && m.pendingData.base != nil
 //@                       && m.store != nil && m.pendingHeaders.base.store == m.store && m.pendingData.base.store == m.store && m.daHeight != nil
@@ -594,7 +594,7 @@ package block
 // on a chain that starts now - no state, no submission watermarks - nothing counts as waiting for DA
 // submission, whatever the initial height is.
 //@ func NewManager(ctx, signer, config, genesis, store, exec, sequencer, da, logger, headerStore, dataStore, headerBroadcaster, dataBroadcaster, seqMetrics, gasPrice, gasMultiplier, managerOpts) (m, err)
-//@   property C04:height-is-state,height-never-lowered,fails-only-for-cause C05:height-is-state,height-never-lowered,fails-only-for-cause C06:nothing-pending-on-fresh-chain,watermarks-only-raised,watermarks-exact C07:da-included-restored,da-included-zero-on-fresh-chain C08:nothing-pending-on-fresh-chain C17:notification-remembered
+//@   property C04:height-is-state,height-never-lowered,fails-only-for-cause C05:height-is-state,height-never-lowered,fails-only-for-cause C06:nothing-pending-on-fresh-chain,watermarks-only-raised,watermarks-exact C07:da-included-restored,da-included-zero-on-fresh-chain C08:nothing-pending-on-fresh-chain C17:notification-remembered C09:scan-starts-at-recorded-height C02:scan-starts-at-recorded-height
 //@   requires [wiring] store != nil && exec != nil && logger != nil
 //@   requires [genesis] genesis.InitialHeight >= 1
 //@   requires [height-range] store.height < 18446744073709551615
@@ -615,6 +615,9 @@ package block
 // C17: a notification that arrives while a block is being produced is remembered - the channel
 // NotifyNewTransactions sends on without blocking has room for one signal
 //@   ensures [notification-remembered] err == nil ==> chanCap(m.txNotifyCh) >= 1
+// C09/C02: the scan of the DA layer resumes at the DA height recorded in the state (or at the configured
+// start height if that is larger) - that height may hold blobs of blocks not applied yet, so not behind it
+//@   ensures [scan-starts-at-recorded-height] err == nil ==> m.daHeight != nil && gis.count == 1 && m.daHeight.v == max(gis.res0.DAHeight, config.DA.StartHeight)
 //@   ensures [nothing-pending-on-fresh-chain] err == nil && !store.faulty && !old(store.hasState) && old(store.height) < genesis.InitialHeight
 //@                       && !old(store.metaHas["last-submitted-header-height"]) && !old(store.metaHas["last-submitted-data-height"])
 //@                       ==> m.pendingHeaders != nil && m.pendingData != nil && NumPending(m.pendingHeaders.base) == 0 && NumPending(m.pendingData.base) == 0
@@ -827,10 +830,15 @@ package block
 //@   requires [wiring] m.pendingHeaders != nil && m.pendingHeaders.base != nil && m.pendingHeaders.base.store == m.store && m.store != nil
 //@   observe gph := call getPending
 //@   observe sub := call submitHeadersToDA
+//@   observe ie := call isEmpty
 //@   modifies m.headerCache.daInc, m.headerCache.daIncHas, m.dataCache.daInc, m.dataCache.daIncHas,
 //@            m.pendingHeaders.base.lastHeight, m.pendingData.base.lastHeight, durable m.store.meta, durable m.store.metaHas
 // no lost wake-up: on every way round the loop the timer (or ticker) the loop waits on fires again
 //@   loop 1 invariant [wakes-up-again] armed(timer)
+// every tick looks at what is pending, and whenever something is pending it is loaded (and then
+// submitted, next clause): nothing the loop remembers from earlier rounds lets it skip a round
+//@   loop 1 invariant [tick-checks-pending] recvCount("timer.C") == 1 ==> ie
+//@   loop 1 invariant [pending-is-loaded] ie && !ie.res0 ==> gph.count == 1
 //@   loop 1 invariant [submit-exactly-pending] sub ==> gph && gph.res1 == nil && sub.arg2 == gph.res0
 //@   loop 1 invariant [submit-all-pending] gph && gph.res1 == nil && len(gph.res0) > 0 ==> sub
 //@   loop 1 invariant [once] sub.count <= 1
@@ -840,9 +848,12 @@ package block
 //@   requires [wiring] m.pendingData != nil && m.pendingData.base != nil && m.pendingData.base.store == m.store && m.store != nil
 //@   observe cs := call createSignedDataToSubmit
 //@   observe sub := call submitDataToDA
+//@   observe ie := call isEmpty
 //@   modifies m.headerCache.daInc, m.headerCache.daIncHas, m.dataCache.daInc, m.dataCache.daIncHas,
 //@            m.pendingHeaders.base.lastHeight, m.pendingData.base.lastHeight, durable m.store.meta, durable m.store.metaHas
 //@   loop 1 invariant [wakes-up-again] armed(timer)
+//@   loop 1 invariant [tick-checks-pending] recvCount("timer.C") == 1 ==> ie
+//@   loop 1 invariant [pending-is-loaded] ie && !ie.res0 ==> cs.count == 1
 //@   loop 1 invariant [submit-exactly-created] sub ==> cs && cs.res1 == nil && sub.arg2 == cs.res0
 //@   loop 1 invariant [submit-all-created] cs && cs.res1 == nil && len(cs.res0) > 0 ==> sub
 //@   loop 1 invariant [once] sub.count <= 1
